@@ -80,7 +80,7 @@ CHECKS.update({
         design="6 C07"),
     "C08": dict(
         technique="Coq proofs of the partition laws for the model of partition_output_buffer (distinct keys, non-empty groups, membership, permutation, group = restriction, conservation of COUNT and SUM) + differential test of grouped queries against exact per-group arithmetic and the binary's own ungrouped run",
-        text="C08_keys_distinct / C08_groups_nonempty / C08_member_has_group_key / C08_partition / C08_group_is_restriction / C08_conservation hold for every buffer and key list; every generated grouped query is compared with groups and exact aggregates computed from the same query without aggregates, with the ungrouped COUNT/SUM of the binary, and with the requested order.",
+        text="C08_keys_distinct / C08_groups_nonempty / C08_member_has_group_key / C08_partition / C08_group_is_restriction / C08_conservation hold for every buffer and key list; C08_order_groups: ordered by the Criteria comparator the group rows are a sorted permutation, for every key list (the comparator the repaired code uses, and the one the ordered rows of the binary are judged by on every run); every generated grouped query is compared with groups and exact aggregates computed from the same query without aggregates, with the ungrouped COUNT/SUM of the binary, and with the requested order.",
         note="HashMap order is unspecified: group rows are compared as a set unless ORDER BY is given; ORDER BY on keys, on aggregates (by name or position) and on keys / aggregates that are not selected is judged with the typed comparison of ungrouped rows (F14 / F15, repaired by 37c6ae7; their witnesses are replayed).",
         design="6 C08"),
     "C11": dict(
